@@ -140,6 +140,9 @@ class OpGen:
             op["track_id"] = int(nxt)
         else:
             op["track_id"] = int(nxt + rng.randint(2, 40))
+        if rng.random() < 0.2:
+            self._aim_at_division(tracks, op, "time")
+            t = op["time"]
         if tracks.segmentation is not None:
             occ = tracks.segmentation[t] != 0
             cells = grow_blob(rng, occ, rng.choice([1, 2, 3, 5, 8]))
@@ -154,8 +157,6 @@ class OpGen:
                 del op["pos"]
         if self.bad(0.03):
             op["omit"] = rng.choice(["time", "track_id"])
-        if rng.random() < 0.2:
-            self._aim_at_division(tracks, op, "time")
         return op
 
     def _conflict_track_at(self, tracks, t):
